@@ -165,15 +165,15 @@ func crossReqs(paths []h.Req, methods []string, combos []rs.HeaderCombo, emptyPa
 
 // routingCase is the replayable detail of a routing violation.
 type routingCase struct {
-	Sweep    string      `json:"sweep"`
-	Router   string      `json:"router"`
-	Table    rm.Table    `json:"table"`
-	Req      h.Req       `json:"req"`
-	Serve    bool        `json:"serve_http"`
-	Filter   bool        `json:"filter"`
-	Observed rs.Outcome  `json:"observed"`
-	Expected any         `json:"expected,omitempty"`
-	Other    any         `json:"other,omitempty"`
+	Sweep    string     `json:"sweep"`
+	Router   string     `json:"router"`
+	Table    rm.Table   `json:"table"`
+	Req      h.Req      `json:"req"`
+	Serve    bool       `json:"serve_http"`
+	Filter   bool       `json:"filter"`
+	Observed rs.Outcome `json:"observed"`
+	Expected any        `json:"expected,omitempty"`
+	Other    any        `json:"other,omitempty"`
 }
 
 func routerOf(s string) rm.Router {
